@@ -149,9 +149,10 @@ class Env:
         if sum(D) == 0:
             return self.par_jet(key, D)
         if self.st:
-            if sum(D[:-1]) <= 1:
+            # cylinder: time derivatives of ANY order of the value / first / second space derivatives
+            if sum(D[:-1]) <= 2:
                 return self._phys_primary(key, D)
-            raise Unsupported('space-time physical derivative of space order > 1')
+            raise Unsupported('space-time physical derivative of space order > 2')
         if sum(D) <= 2:
             return self._phys_primary(key, D)
         raise Unsupported('physical derivative of order > 2')
@@ -183,9 +184,21 @@ class Env:
                     Dk = tuple(1 if q == k else 0 for q in range(d - 1)) + (D[-1],)
                     tot += self.J(k, i) * self._phys_primary(key, Dk)
                 return tot
-            if key[0] == 'geo' and order == 2:
-                a, b = _indices(D)
-                return self.HG(key[1], a, b)
+            if sp == 2:
+                # d_xi_a d_xi_b d_tau^n u = J^T (H_x d_t^n u~) J + sum_m (d_x_m d_t^n u~) H(G_m)[a,b]
+                # (parametric time derivative = physical time derivative on a cylinder)
+                a, b = _indices(D[:-1] + (0,))
+                n = D[-1]
+                sd = d - 1
+                su = lambda k: tuple(1 if q == k else 0 for q in range(sd))
+                tot = Fraction(0)
+                for k in range(sd):
+                    for l in range(sd):
+                        Dkl = tuple(x + y for x, y in zip(su(k), su(l))) + (n,)
+                        tot += self.J(k, a) * self._phys_primary(key, Dkl) * self.J(l, b)
+                for m in range(sd):
+                    tot += self._phys_primary(key, su(m) + (n,)) * self.HG(m, a, b)
+                return tot
             return self.rnd(('par',) + key + (D,))
         if order == 1:
             a = D.index(1)
